@@ -525,7 +525,8 @@ class UnicodeData:
         # Additional map for lookup using normalization for Unicode naming rules,
         # doesn't include superseded blocks.
         self._unicode_blocks = {
-            k.upper().replace(' ', '').replace('_', '').replace('-', ''): k
+            k.upper().replace(' ', '').replace('_', '').replace('-', ''):
+                k.replace(' ', '').replace('_', '')
             for k in blocks if k not in superseded_blocks
         }
 
